@@ -30,6 +30,7 @@ class C17(CacheProp):
         closed = False
         max_cost = int(case.args[0])
         last_dump = None
+        last_rem = None
         for st in tr.steps:
             op, res = st["op"], st["res"]
             if op[0] == "close":
@@ -60,6 +61,8 @@ class C17(CacheProp):
                 max_cost = int(op[1])
             if op[0] == "dump":
                 last_dump = (st["n"], parse_dump(st["raw"]))
+            if op[0] == "rem" and res[:1] and res[0].lstrip("-").isdigit():
+                last_rem = (st["n"], int(res[0]))
             if op[0] == "metrics" and res[:1] != ["nil"] and len(res) >= 9:
                 hits, misses, kadd, kupd, kev, cadd, cev, sdrop, srej = map(int, res[:9])
                 gk = gd = 0
@@ -85,6 +88,10 @@ class C17(CacheProp):
                         fails.append("op %d: KeysAdded-KeysEvicted=%d but %d keys are resident in the map" % (st["n"], (kadd - kev) % M64, nstore))
                     if (cadd - cev) % M64 != used % M64:
                         fails.append("op %d: CostAdded-CostEvicted=%d but used=%d" % (st["n"], (cadd - cev) % M64, used))
+                    if last_rem and last_rem[0] in (st["n"] - 1, st["n"] - 2, st["n"] - 3) and \
+                            (cadd - cev) % M64 != (max_cost - last_rem[1]) % M64:
+                        fails.append("op %d: CostAdded-CostEvicted=%d but MaxCost-RemainingCost()=%d-(%d)" % (
+                            st["n"], (cadd - cev) % M64, max_cost, last_rem[1]))
         return fails
 
     stress_kinds = ("getscount",)
